@@ -118,7 +118,11 @@ def run_case(case: Case):
                 except Exception:  # noqa: BLE001
                     inputs = {"error": traceback.format_exc(limit=2)}
             replay = None
-            if inputs is not None and "error" not in inputs:
+            if o.concrete and not inputs:
+                # the obligation was a concrete evaluation of the real code on this tree (no symbolic input involved):
+                # evaluating it IS the native replay
+                replay = {"reproduced": True, "observed": o.info, "note": "concrete evaluation of the real code"}
+            elif inputs is not None and "error" not in inputs:
                 try:
                     replay = case.native(inputs)
                 except Exception:  # noqa: BLE001
